@@ -26,6 +26,9 @@ var (
 	calReported bool
 )
 
+// strictDash switches the tolerance for the dash here-document defect off (see scriptTag).
+const strictDash = true
+
 const calTag = "EOFQ"
 const calValue = "E\xc3\xa9\nEO\xffx\nEOFQ\xe2y\n\xc3\xa9E\nxE\xc3\xa9\nEa\xc3\xa9"
 
@@ -70,7 +73,10 @@ func dashMangle(v, tag string) string {
 // scriptTag returns the delimiter of the script's own here-documents: the first one opened
 // (values come later in the text and may contain look-alikes).
 func scriptTag(script []byte) string {
-	if !calDefect {
+	// Strict since the repository picks delimiters that no value line starts like
+	// (varutil.HeredocTag): no deviation is tolerated any more, whatever the shell's
+	// self-test showed. The calibration is kept as an observation only.
+	if !calDefect || strictDash {
 		return ""
 	}
 	if m := hereRe.FindSubmatch(script); m != nil {
